@@ -320,8 +320,13 @@ class Envelope:
         outcomes = {}
         reshape_shape = []
         if self.state is None:
-            for s in [self.polarization, self.fock]:
-                out = s.measure()
+            to_measure: List["BaseState"] = [self.polarization, self.fock]
+            if separate_measurement and len(states) == 1:
+                to_measure = [s for s in states if s is not None]
+            for s in to_measure:
+                if s.measured or s in outcomes:
+                    continue
+                out = s.measure(separate_measurement=True, destructive=destructive)
                 for k, v in out.items():
                     outcomes[k] = v
         else:
